@@ -46,7 +46,7 @@ for meta in sorted(glob.glob(os.path.join(V, 'seeded', '*', 'meta.json'))):
 if only:
     todo = [m for m in todo if any(o in m['id'] for o in only)]
 bad = 0
-with ThreadPoolExecutor(max_workers=6) as ex:
+with ThreadPoolExecutor(max_workers=int(os.environ.get('SELFTEST_JOBS', '6'))) as ex:
     for (i, status, info) in ex.map(run_one, todo):
         print('%-28s %-12s %s' % (i, status, info if status != 'ok' else info[:110]))
         sys.stdout.flush()
